@@ -88,20 +88,25 @@ func VpC11Prefilter() {
 
 // VpC11Generated: patterns enumerated from a small grammar instead of a hand-written list:
 //   [flags] [^|\A] atom atom[quant] atom [| alt] [$|\z]
-// with atoms from {a, B, (?i:b), [ab], ., \d, b}, quantifiers {none, ?, *, +}, alternatives
+// with atoms from {a, B, ., (?i:b), [ab], \d, b} (and an optional fourth atom), quantifiers {none, ?, *, +}, alternatives
 // {none, "|ab", "|Ab", "|"}, flags {none, (?i), (?s), (?m)}; symbolic ASCII input.  The match
 // result with the prefilter on must equal the one with it off.
 func VpC11Generated() {
-	atoms := []string{"a", "B", "(?i:b)", "[ab]", ".", `\d`, "b"}
+	atoms := []string{"a", "B", ".", "(?i:b)", "[ab]", `\d`, "b"}
 	na := vp.Param("ATOMS", len(atoms))
 	a1 := atoms[vp.Choice("atom1", na)]
 	a2 := atoms[vp.Choice("atom2", na)]
 	a3 := atoms[vp.Choice("atom3", na)]
+	// an optional fourth atom, so that a literal of two letters can follow a non-literal atom
+	a4 := ""
+	if k := vp.Choice("atom4", vp.Param("FOURTH", 0)+1); k > 0 {
+		a4 = atoms[k-1]
+	}
 	q := []string{"", "?", "*", "+"}[vp.Choice("quant", 4)]
 	alt := []string{"", "|ab", "|Ab", "|"}[vp.Choice("alt", vp.Param("ALTS", 4))]
 	fl := []string{"", "(?i)", "(?s)", "(?m)"}[vp.Choice("flags", vp.Param("FLAGS", 4))]
-	anchor := vp.Choice("anchors", 7)
-	pat := a1 + a2 + q + a3
+	anchor := vp.Choice("anchors", vp.Param("ANCHORS", 7))
+	pat := a1 + a2 + q + a3 + a4
 	switch anchor {
 	case 1, 3:
 		pat = "^" + pat
